@@ -1,7 +1,7 @@
 //! Engine `cache` (C16): the real `HttpSymbolSupplier` against a scripted loopback HTTP/1.1 server.
 //!
 //! case line:
-//!   `cache m:<mod> pre:<pre> fs:<fs> r:<resp>[|<resp>…] drop:<-|all|k> race:<0|1>`
+//!   `cache m:<mod> pre:<pre> fs:<fs> r:<resp>[|<resp>…] drop:<-|all|k> race:<0|1> [file:<sym|bin|pdb>] [wf:<j>]`
 //!     mod  : index into `MODULES` (debug file / debug id / code file / code id)
 //!     pre  : what sits at the module's cache path before the call
 //!            `-` | `valid` | `validurl` | `corrupt` | `trunc` | `dir` | `special` (symlink to /dev/null) | `dangling` | `local`
@@ -12,18 +12,27 @@
 //!            framing `len|chunked|close`; cut `-` or the number of body bytes after which the connection is closed;
 //!            pace = microseconds between pieces; split `w` (one piece) | `l` (line by line) | `s<seed>` (random pieces)
 //!            body `g<seed>.<lines>[+c<j>][+t][+u][+o][+M<k>][+L<k>]` (generated; `+c<j>` line j made unparseable, `+t` final newline removed,
-//!                 `+u` contains its own INFO URL line, `+o` ends inside an open FUNC item, `+M<k>` a terminated line of k bytes after
+//!                 `+u` contains its own INFO URL line, `+o` / `+k` ends inside an open FUNC / STACK CFI INIT item, `+M<k>` a terminated line of k bytes after
 //!                 the MODULE line, `+L<k>` an unterminated last line of k bytes) | `e` (empty) | `x<hex>`
 //!     drop : `-` run to completion | `k` drop the future after k polls | `all` completion, then every poll boundary in turn
 //!     race : `1` = two concurrent calls for the same module (needs exactly two resps, one server each): the second call
 //!            passes its cache lookup, then the first runs to completion, then the second finishes
+//!     file : `sym` (default: `locate_symbols`) | `bin` | `pdb` (`locate_file`: the opaque download path `fetch_lookup`)
+//!     wf   : a disk that fills up in the middle of the download: the first server sends the head and `j` pieces, waits,
+//!            the harness `dup2`s `/dev/full` over the descriptor of the call's temp file (every further write fails
+//!            with ENOSPC), then the server goes on
 //!
-//! canonical output (compared with the Lean model `MdModel.CacheFs`):
+//! canonical output (compared with the Lean model `MdModel.CacheFs`: `Real.machine` — the C09/C10 symbol parser
+//! model inside the loop of `parse_async` — for `sym`, `File.machine` for `bin`/`pdb`):
 //!   `cache:<node> tmp:<n> r:<res[;res]> req:<log[;log]> second:<res> drops:<clean|dirty|->`
+//!   res (sym): `ok:<url|->#<fnv64 of the canonical dump of the whole table>` | `parse-error` | `notfound` | `dropped`
+//!   res (bin/pdb): `found` | `notfound` | `dropped`
 //! where `127.0.0.1:<port>` is rewritten to `HOST` in file contents and URLs.
 
 use crate::common::*;
+use breakpad_symbols::fuzzing_private_exports::WinStackThing;
 use breakpad_symbols::{HttpSymbolSupplier, SimpleModule, SymbolError, SymbolFile, SymbolSupplier};
+use std::fmt::Write as _;
 use std::collections::BTreeMap;
 use std::future::Future;
 use std::io::{Read, Write};
@@ -46,6 +55,13 @@ fn verif() -> PathBuf {
 }
 fn scratch_root() -> PathBuf {
     let d = verif().join(".scratch/cache").join(std::process::id().to_string());
+    // (another worker may be removing the empty per-process directory at this very moment: retry)
+    for _ in 0..50 {
+        if std::fs::create_dir_all(&d).is_ok() && d.is_dir() {
+            return d;
+        }
+        std::thread::sleep(Duration::from_micros(200));
+    }
     std::fs::create_dir_all(&d).unwrap();
     d
 }
@@ -135,6 +151,13 @@ struct Case {
     race: bool,
     /// `sym` (locate_symbols), or `bin` / `pdb` (locate_file: the opaque download path `fetch_lookup`)
     file: String,
+    /// `Some(j)`: the first server sends the response head and `j` pieces of the body and then waits; the
+    /// harness replaces the descriptor of the call's temp file by `/dev/full` (every further write fails with
+    /// ENOSPC — a disk that fills up in the middle of the download) and lets the server go on
+    wf: Option<usize>,
+    /// with `wf`: the fault is TRANSIENT — only the writes of piece `j` fail (the server waits again after piece
+    /// `j`; the original descriptor is put back unless the implementation has given the temp file up meanwhile)
+    wft: bool,
 }
 
 fn parse_resp(s: &str) -> Option<RespSpec> {
@@ -173,7 +196,21 @@ fn show_resp(r: &RespSpec) -> String {
 }
 
 fn parse_case(case: &str) -> Option<Case> {
-    let f: Vec<&str> = case.split(' ').filter(|s| !s.is_empty()).collect();
+    let mut f: Vec<&str> = case.split(' ').filter(|s| !s.is_empty()).collect();
+    // optional trailing fields, in this order: `file:<kind>` `wf:<j>`
+    let mut wf: Option<usize> = None;
+    let mut wft = false;
+    if let Some(j) = f.last().and_then(|l| l.strip_prefix("wf:")) {
+        let j = match j.strip_suffix('t') {
+            Some(j) => {
+                wft = true;
+                j
+            }
+            None => j,
+        };
+        wf = Some(j.parse().ok()?);
+        f.pop();
+    }
     if (f.len() != 7 && f.len() != 8) || f[0] != "cache" {
         return None;
     }
@@ -210,7 +247,16 @@ fn parse_case(case: &str) -> Option<Case> {
     if file != "sym" && (MODULES[m].code_id.is_none() || !["-", "dir", "special", "dangling"].contains(&pre.as_str())) {
         return None;
     }
-    Some(Case { m, pre, fs, resps, drop, race, file })
+    // a write fault needs a download that reaches the body: first server answers 2xx, nothing served locally,
+    // the temp file can be created, the call is not dropped
+    if wf.is_some() && (race || drop != "-" || fs != "-" || resps.is_empty() || resps[0].status >= 400 || ["valid", "validurl", "corrupt", "trunc", "local"].contains(&pre.as_str())) {
+        return None;
+    }
+    // a transient fault is placed on a piece that certainly causes a write: whole lines (`l`), not the last position
+    if wft && resps[0].split != "l" {
+        return None;
+    }
+    Some(Case { m, pre, fs, resps, drop, race, file, wf, wft })
 }
 fn show_case(c: &Case) -> String {
     format!(
@@ -222,13 +268,13 @@ fn show_case(c: &Case) -> String {
         c.drop,
         if c.race { 1 } else { 0 },
         if c.file == "sym" { String::new() } else { format!(" file:{}", c.file) }
-    )
+    ) + &c.wf.map(|j| format!(" wf:{j}{}", if c.wft { "t" } else { "" })).unwrap_or_default()
 }
 
 // ------------------------------------------------------------------------------------------ bodies
 
 /// A generated, valid Breakpad symbol file of `n` lines (every line ends in `\n`).
-fn gen_body(seed: u64, n: usize, m: &Mod, own_url: bool, open_func: bool) -> Vec<Vec<u8>> {
+fn gen_body(seed: u64, n: usize, m: &Mod, own_url: bool, open_func: bool, open_cfi: bool) -> Vec<Vec<u8>> {
     let mut rng = Rng::new(seed ^ 0xC16);
     let leaf = m.debug_file.rsplit('/').next().unwrap();
     let mut lines: Vec<Vec<u8>> = vec![format!("MODULE Linux x86_64 {} {}", m.debug_id, leaf).into_bytes()];
@@ -288,6 +334,11 @@ fn gen_body(seed: u64, n: usize, m: &Mod, own_url: bool, open_func: bool) -> Vec
     }
     if open_func {
         lines.push(format!("FUNC {:x} 10 0 last_function", addr + 0x100).into_bytes());
+        lines.push(format!("{:x} 4 7 0", addr + 0x100).into_bytes());
+    }
+    if open_cfi {
+        lines.push(format!("STACK CFI INIT {:x} 20 .cfa: $rsp 8 + .ra: .cfa -8 + ^", addr + 0x200).into_bytes());
+        lines.push(format!("STACK CFI {:x} .cfa: $rsp 16 +", addr + 0x204).into_bytes());
     }
     // CRLF on a few record lines (never on INFO lines)
     for l in lines.iter_mut() {
@@ -315,6 +366,7 @@ fn body_bytes(spec: &str, m: &Mod) -> Option<Vec<u8>> {
     let mut unterminated = false;
     let mut own_url = false;
     let mut open_func = false;
+    let mut open_cfi = false;
     let mut long_tail: Option<usize> = None;
     let mut long_mid: Option<usize> = None;
     for p in parts {
@@ -334,11 +386,13 @@ fn body_bytes(spec: &str, m: &Mod) -> Option<Vec<u8>> {
             own_url = true;
         } else if p == "o" {
             open_func = true;
+        } else if p == "k" {
+            open_cfi = true;
         } else {
             return None;
         }
     }
-    let mut lines = gen_body(seed, n, m, own_url, open_func);
+    let mut lines = gen_body(seed, n, m, own_url, open_func, open_cfi);
     if let Some(j) = corrupt {
         let j = j.min(lines.len() - 1);
         let mut l = b"!corrupt ".to_vec();
@@ -432,6 +486,22 @@ struct Script {
     pace_us: u64,
     pieces: Vec<Vec<u8>>,
     gate: Option<Arc<AtomicBool>>,
+    /// hold points
+    holds: Vec<Hold>,
+}
+
+/// the server waits (until `gate` opens) after `at` pieces; `pieces.len()` = before the end of the response
+#[derive(Clone)]
+struct Hold {
+    at: usize,
+    gate: Arc<AtomicBool>,
+    /// set by the server when it has reached the hold point
+    holding: Arc<AtomicBool>,
+}
+impl Hold {
+    fn new(at: usize) -> Hold {
+        Hold { at, gate: Arc::new(AtomicBool::new(false)), holding: Arc::new(AtomicBool::new(false)) }
+    }
 }
 
 struct Shared {
@@ -494,7 +564,17 @@ fn serve_one(mut s: TcpStream, shared: &Shared) {
         return;
     }
     let _ = s.flush();
-    for p in &sc.pieces {
+    let hold = |at: usize| {
+        for h in sc.holds.iter().filter(|h| h.at == at) {
+            h.holding.store(true, Ordering::SeqCst);
+            let t0 = std::time::Instant::now();
+            while !h.gate.load(Ordering::SeqCst) && t0.elapsed() < Duration::from_secs(25) {
+                std::thread::sleep(Duration::from_micros(100));
+            }
+        }
+    };
+    for (pi, p) in sc.pieces.iter().enumerate() {
+        hold(pi);
         if sc.pace_us > 0 {
             std::thread::sleep(Duration::from_micros(sc.pace_us));
         }
@@ -510,6 +590,7 @@ fn serve_one(mut s: TcpStream, shared: &Shared) {
         }
         let _ = s.flush();
     }
+    hold(sc.pieces.len());
     if sc.framing == Framing::Chunked && !sc.cut {
         let _ = s.write_all(b"0\r\n\r\n");
     }
@@ -687,6 +768,63 @@ fn permissions_bite() -> bool {
     bites
 }
 
+extern "C" {
+    fn dup(fd: i32) -> i32;
+    fn dup2(oldfd: i32, newfd: i32) -> i32;
+    fn close(fd: i32) -> i32;
+}
+
+/// the open descriptor of a file below `tmp` (the call's `NamedTempFile`) and the file's current length
+fn temp_fd_in(tmp: &Path) -> Option<(i32, usize)> {
+    let rd = std::fs::read_dir("/proc/self/fd").ok()?;
+    for e in rd.filter_map(|e| e.ok()) {
+        if let Ok(target) = std::fs::read_link(e.path()) {
+            if target.starts_with(tmp) {
+                let fd: i32 = e.file_name().to_string_lossy().parse().ok()?;
+                let len = std::fs::metadata(&target).map(|m| m.len() as usize).unwrap_or(0);
+                return Some((fd, len));
+            }
+        }
+    }
+    None
+}
+
+static FD_LOCK: Mutex<()> = Mutex::new(());
+
+/// From now on every write through `fd` fails with ENOSPC: the descriptor is atomically replaced by one of
+/// `/dev/full` (no descriptor number is freed, so nothing else in this process can be affected; the
+/// `NamedTempFile` keeps its path and still removes the file when dropped). With `keep`, a duplicate of the
+/// original descriptor is returned (for `restore_fd`), else -1.
+fn replace_by_dev_full(fd: i32, keep: bool) -> i32 {
+    use std::os::unix::io::AsRawFd;
+    let _g = FD_LOCK.lock().unwrap();
+    let mut saved = -1;
+    if let Ok(full) = std::fs::OpenOptions::new().write(true).open("/dev/full") {
+        unsafe {
+            if keep {
+                saved = dup(fd);
+            }
+            dup2(full.as_raw_fd(), fd);
+        }
+    }
+    saved
+}
+
+/// end of a transient fault: put the original descriptor back (`put_back`, only if `fd` still is the /dev/full
+/// descriptor the harness installed — the implementation may have closed it) and close the duplicate
+fn restore_fd(fd: i32, saved: i32, put_back: bool) {
+    if saved < 0 {
+        return;
+    }
+    let _g = FD_LOCK.lock().unwrap();
+    unsafe {
+        if put_back && std::fs::read_link(format!("/proc/self/fd/{fd}")).map(|t| t == Path::new("/dev/full")).unwrap_or(false) {
+            dup2(saved, fd);
+        }
+        close(saved);
+    }
+}
+
 struct Dirs {
     base: PathBuf,
     cache: PathBuf,
@@ -738,6 +876,12 @@ fn setup_dirs(c: &Case, m: &Mod) -> Dirs {
     use std::os::unix::fs::PermissionsExt;
     let base = scratch_root().join(format!("c{}", COUNTER.fetch_add(1, Ordering::Relaxed)));
     let d = Dirs { cache: base.join("cache"), tmp: base.join("tmp"), local: base.join("local"), base };
+    for _ in 0..50 {
+        if std::fs::create_dir_all(&d.local).is_ok() {
+            break;
+        }
+        std::thread::sleep(Duration::from_micros(200));
+    }
     std::fs::create_dir_all(&d.base).unwrap();
     std::fs::create_dir_all(&d.local).unwrap();
     if c.fs == "cachefile" {
@@ -798,9 +942,91 @@ fn setup_dirs(c: &Case, m: &Mod) -> Dirs {
 
 // ------------------------------------------------------------------------------------------ one run
 
+/// canonical dump of a symbol table WITHOUT its URL — the text of `MdModel.Sym.dump {t with url := none}`
+/// (the same format engine `sym` compares field by field)
+fn dump_table(f: &SymbolFile) -> String {
+    let mut s = String::new();
+    let hx = |t: &str| hex(t.as_bytes());
+    let _ = write!(s, "mod={},{};files:", hx(&f.module_id), hx(&f.debug_file));
+    let mut files: Vec<_> = f.files.iter().collect();
+    files.sort();
+    s.push_str(&files.iter().map(|(k, v)| format!("{k}={}", hx(v))).collect::<Vec<_>>().join(","));
+    s.push_str(";origins:");
+    let mut origins: Vec<_> = f.inline_origins.iter().collect();
+    origins.sort();
+    s.push_str(&origins.iter().map(|(k, v)| format!("{k}={}", hx(v))).collect::<Vec<_>>().join(","));
+    s.push_str(";pub:");
+    s.push_str(&f.publics.iter().map(|p| format!("{}/{}/{}", p.address, p.parameter_size, hx(&p.name))).collect::<Vec<_>>().join(","));
+    s.push_str(";func:");
+    let mut first = true;
+    for (r, func) in f.functions.ranges_values() {
+        if !first {
+            s.push(';');
+        }
+        first = false;
+        let _ = write!(s, "{}-{} {} {} {} {} L[", r.start, r.end, func.address, func.size, func.parameter_size, hx(&func.name));
+        s.push_str(
+            &func.lines.ranges_values().map(|(r, l)| format!("{}-{} {} {} {} {}", r.start, r.end, l.address, l.size, l.file, l.line)).collect::<Vec<_>>().join(","),
+        );
+        s.push_str("] I[");
+        s.push_str(
+            &func
+                .inlinees
+                .iter()
+                .map(|i| format!("{} {} {} {} {} {}", i.depth, i.address, i.size, i.call_file, i.call_line, i.origin_id))
+                .collect::<Vec<_>>()
+                .join(","),
+        );
+        s.push(']');
+    }
+    s.push_str(";cfi:");
+    s.push_str(
+        &f.cfi_stack_info
+            .ranges_values()
+            .map(|(r, c)| {
+                format!(
+                    "{}-{} {} {} {} A[{}]",
+                    r.start,
+                    r.end,
+                    c.init.address,
+                    c.size,
+                    hx(&c.init.rules),
+                    c.add_rules.iter().map(|a| format!("{}:{}", a.address, hx(&a.rules))).collect::<Vec<_>>().join(",")
+                )
+            })
+            .collect::<Vec<_>>()
+            .join(";"),
+    );
+    for (label, table) in [(";wfd:", &f.win_stack_framedata_info), (";wfpo:", &f.win_stack_fpo_info)] {
+        s.push_str(label);
+        s.push_str(
+            &table
+                .ranges_values()
+                .map(|(r, w)| {
+                    let t = match &w.program_string_or_base_pointer {
+                        WinStackThing::ProgramString(p) => format!("P{}", hx(p)),
+                        WinStackThing::AllocatesBasePointer(b) => (if *b { "B1" } else { "B0" }).to_string(),
+                    };
+                    format!(
+                        "{}-{} {} {} {} {} {} {} {} {} {}",
+                        r.start, r.end, w.address, w.size, w.prologue_size, w.epilogue_size, w.parameter_size, w.saved_register_size, w.local_size, w.max_stack_size, t
+                    )
+                })
+                .collect::<Vec<_>>()
+                .join(";"),
+        );
+    }
+    s.push_str(";url=none");
+    s
+}
+
 fn class_of(r: &Result<breakpad_symbols::LocateSymbolsResult, SymbolError>, port: Origin) -> String {
     match r {
-        Ok(l) => format!("ok:{}", l.symbols.url.as_deref().map(|u| canon_str(u, port)).unwrap_or("-".into())),
+        Ok(l) => format!(
+            "ok:{}#{:016x}",
+            l.symbols.url.as_deref().map(|u| canon_str(u, port)).unwrap_or("-".into()),
+            fnv64(dump_table(&l.symbols).as_bytes())
+        ),
         Err(SymbolError::NotFound) => "notfound".into(),
         Err(SymbolError::ParseError(..)) => "parse-error".into(),
         Err(SymbolError::LoadError(_)) => "load-error".into(),
@@ -830,6 +1056,8 @@ struct RunObs {
     midflight: Vec<(String, String)>,
     /// real request URLs (with the real port) per (task, server)
     bodies: Vec<Vec<u8>>,
+    /// write fault: `Some(n)` = the temp file's descriptor was replaced by /dev/full when the file held n bytes
+    injected: Option<usize>,
 }
 
 struct Prepared {
@@ -844,6 +1072,10 @@ fn prepare(c: &Case, m: &Mod) -> Option<Prepared> {
         let b = body_bytes(&r.body, m)?;
         ps.push(pieces(&b, r.cut, &r.split));
         bodies.push(b);
+    }
+    // a transient write fault needs a piece to fail on
+    if c.wft && c.wf.map(|j| j >= ps[0].len()).unwrap_or(true) {
+        return None;
     }
     Some(Prepared { bodies, pieces: ps })
 }
@@ -887,6 +1119,9 @@ fn check_midflight(obs: &mut RunObs, d: &Dirs, prep: &Prepared, at: &str) {
 fn run_once(c: &Case, m: &Mod, prep: &Prepared, drop_at: Option<usize>) -> RunObs {
     let d = setup_dirs(c, m);
     let gate = Arc::new(AtomicBool::new(false));
+    let wf_j = c.wf.map(|j| j.min(prep.pieces[0].len())).unwrap_or(0);
+    let hold1 = Hold::new(wf_j);
+    let hold2 = Hold::new(wf_j + 1);
     let server = worker_server();
     let rid = COUNTER.fetch_add(1, Ordering::Relaxed);
     for (i, r) in c.resps.iter().enumerate() {
@@ -901,6 +1136,11 @@ fn run_once(c: &Case, m: &Mod, prep: &Prepared, drop_at: Option<usize>) -> RunOb
                 pace_us: r.pace_us,
                 pieces: prep.pieces[i].clone(),
                 gate: if c.race && i == 1 { Some(gate.clone()) } else { None },
+                holds: match (i, c.wf, c.wft) {
+                    (0, Some(_), false) => vec![hold1.clone()],
+                    (0, Some(_), true) => vec![hold1.clone(), hold2.clone()],
+                    _ => vec![],
+                },
             }),
         );
     }
@@ -953,6 +1193,12 @@ fn run_once(c: &Case, m: &Mod, prep: &Prepared, drop_at: Option<usize>) -> RunOb
                 }),
             });
             let mut polls = 0usize;
+            let mut hold_polls = 0usize;
+            let mut stage = 0u8;
+            let mut saved_fd: i32 = -1;
+            let mut faulted_fd: i32 = -1;
+            let wf_expect: Option<usize> = if c.file != "sym" && c.wf.is_some() { Some(prep.pieces[0][..wf_j].iter().map(|p| p.len()).sum()) } else { None };
+            let wf_only_end = c.file != "sym" && wf_j == prep.pieces[0].len();
             let res = rt.block_on(std::future::poll_fn(|cx| {
                 if drop_at == Some(polls) {
                     return Poll::Ready(None);
@@ -965,11 +1211,64 @@ fn run_once(c: &Case, m: &Mod, prep: &Prepared, drop_at: Option<usize>) -> RunOb
                         if obs.midflight.len() < 4 {
                             check_midflight(&mut obs, &d, prep, &format!("suspended after poll {polls}"));
                         }
+                        if c.wf.is_some() && stage < 2 {
+                            if stage == 0 && hold1.holding.load(Ordering::SeqCst) {
+                                // the server is waiting at the hold point: make the writes to the temp file fail
+                                hold_polls += 1;
+                                if let Some((fd, len)) = temp_fd_in(&d.tmp) {
+                                    // Wait until the client has taken in what was sent before the hold. The opaque path
+                                    // writes every received byte, so the temp file tells; for the symbol path the outcome
+                                    // does not depend on which later write is the first to fail.
+                                    let ready = match wf_expect {
+                                        Some(x) => len >= x,
+                                        None => hold_polls >= 3,
+                                    };
+                                    if ready || hold_polls > 300 {
+                                        // (never inject late into an opaque download that is only waiting for the end of
+                                        // the response: whether a write is still to come would be a race)
+                                        if ready || !wf_only_end {
+                                            saved_fd = replace_by_dev_full(fd, c.wft);
+                                            faulted_fd = fd;
+                                            obs.injected = Some(len);
+                                        }
+                                        hold1.gate.store(true, Ordering::SeqCst);
+                                        stage = if c.wft && obs.injected.is_some() { 1 } else { 2 };
+                                        hold_polls = 0;
+                                    }
+                                } else if hold_polls > 400 {
+                                    // no temp file (it could not be created): nothing to inject
+                                    hold1.gate.store(true, Ordering::SeqCst);
+                                    stage = 2;
+                                }
+                            } else if stage == 1 && hold2.holding.load(Ordering::SeqCst) {
+                                // transient fault: piece j has been sent. A correct implementation gives the temp file up
+                                // at the failing write (the tmp directory empties); otherwise — after a generous
+                                // time — the original descriptor is put back, so that later writes succeed again.
+                                hold_polls += 1;
+                                let gone = std::fs::read_dir(&d.tmp).map(|mut r| r.next().is_none()).unwrap_or(true);
+                                if gone || hold_polls > 2000 {
+                                    restore_fd(faulted_fd, saved_fd, !gone);
+                                    saved_fd = -1;
+                                    if !gone {
+                                        obs.midflight.push(("temp-file-kept-after-failed-write".into(), format!("a write to the temp file failed (ENOSPC) {} polls ago and the file is still in the tmp directory", hold_polls)));
+                                    }
+                                    hold2.gate.store(true, Ordering::SeqCst);
+                                    stage = 2;
+                                }
+                            }
+                            // nothing arrives while the server waits: come back by timer
+                            let w = cx.waker().clone();
+                            tokio::spawn(async move {
+                                tokio::time::sleep(Duration::from_micros(300)).await;
+                                w.wake();
+                            });
+                        }
                         Poll::Pending
                     }
                 }
             }));
             obs.polls = polls;
+            restore_fd(faulted_fd, saved_fd, false);
             match res {
                 None => {
                     drop(fut.take());
@@ -1035,6 +1334,8 @@ fn run_once(c: &Case, m: &Mod, prep: &Prepared, drop_at: Option<usize>) -> RunOb
         }
         obs.midflight.push(("panic".into(), msg));
     }
+    hold1.gate.store(true, Ordering::SeqCst);
+    hold2.gate.store(true, Ordering::SeqCst);
     drop(suppliers);
     drop(rt);
     obs.after_cache = tree(&d.cache, port);
@@ -1070,12 +1371,29 @@ fn run_once(c: &Case, m: &Mod, prep: &Prepared, drop_at: Option<usize>) -> RunOb
             let _g = rt.enter();
             HttpSymbolSupplier::new(vec![], d.cache.clone(), d.tmp.clone(), vec![], Duration::from_secs(1))
         };
-        let r = rt.block_on(s2.locate_symbols(&md));
-        r
+        let kind = match c.file.as_str() {
+            "bin" => Some(breakpad_symbols::FileKind::Binary),
+            "pdb" => Some(breakpad_symbols::FileKind::ExtraDebugInfo),
+            _ => None,
+        };
+        match kind {
+            None => rt.block_on(s2.locate_symbols(&md)),
+            // the opaque path: `found` is reported as `MissingDebugFileOrId` (see `class_of_file`)
+            Some(k) => match rt.block_on(s2.locate_file(&md, k)) {
+                Ok(_) => Err(SymbolError::MissingDebugFileOrId),
+                Err(_) => Err(SymbolError::NotFound),
+            },
+        }
     });
     match r2 {
         Ok(r) => {
-            obs.second = class_of(&r, port);
+            obs.second = if c.file == "sym" {
+                class_of(&r, port)
+            } else if matches!(r, Err(SymbolError::MissingDebugFileOrId)) {
+                "found".into()
+            } else {
+                "notfound".into()
+            };
             if let Ok(l) = r {
                 obs.second_table = Some(l.symbols);
             }
@@ -1255,6 +1573,16 @@ fn initial_node(c: &Case, m: &Mod) -> String {
     }
 }
 
+/// `node_at` form of the initial node (for cases without a pre-existing regular file)
+fn initial_node_desc(c: &Case, _m: &Mod) -> String {
+    match c.pre.as_str() {
+        "dir" => "dir".into(),
+        "special" => "special".into(),
+        "dangling" => "dangling".into(),
+        _ => "none".into(),
+    }
+}
+
 fn build_model_request(c: &Case, m: &Mod, prep: &Prepared) -> String {
     let create_ok = !matches!(c.fs.as_str(), "tmpmissing" | "cachefile" | "subfile" | "rotmp" | "rocache");
     let persist_ok = c.fs != "roleaf";
@@ -1265,12 +1593,16 @@ fn build_model_request(c: &Case, m: &Mod, prep: &Prepared) -> String {
         if r.status >= 400 {
             return;
         }
-        for p in &prep.pieces[i] {
-            evs.push(format!("{task}C{}:1@{idx}", hex(p)));
+        // write fault: from piece `j` of the first response on, every write to the temp file fails
+        let fault_from: Option<usize> = if i == 0 && task == 0 && create_ok { c.wf.map(|j| j.min(prep.pieces[0].len())) } else { None };
+        for (pi, p) in prep.pieces[i].iter().enumerate() {
+            let wok = fault_from.map(|j| if c.wft { pi != j } else { pi < j }).unwrap_or(true);
+            evs.push(format!("{task}C{}:{}@{idx}", hex(p), if wok { 1 } else { 0 }));
         }
         let complete = effective_body(r, &prep.bodies[i]).is_some();
         if complete {
-            evs.push(format!("{task}E11{}{}@{idx}", 1, if persist_ok { 1 } else { 0 }));
+            let w = if fault_from.is_some() && !c.wft { 0 } else { 1 };
+            evs.push(format!("{task}E{w}{w}{}{}@{idx}", 1, if persist_ok { 1 } else { 0 }));
         } else {
             evs.push(format!("{task}N@{idx}"));
         }
@@ -1286,7 +1618,8 @@ fn build_model_request(c: &Case, m: &Mod, prep: &Prepared) -> String {
             resp_events(0, i, i, &mut evs);
         }
     }
-    let url = |prefix: String| hex(format!("http://HOST/{prefix}/{}", m.server_rel).as_bytes());
+    let (cache_rel, server_rel) = rels(m, &c.file);
+    let url = |prefix: String| hex(format!("http://HOST/{prefix}/{server_rel}").as_bytes());
     let tasks: Vec<String> = if c.race {
         vec![format!("t:{}", url("t0s0".into())), format!("t:{}", url("t1s0".into()))]
     } else if c.resps.is_empty() {
@@ -1295,8 +1628,10 @@ fn build_model_request(c: &Case, m: &Mod, prep: &Prepared) -> String {
         vec![format!("t:{}", (0..c.resps.len()).map(|i| url(format!("s{i}"))).collect::<Vec<_>>().join(";"))]
     };
     format!(
-        "cache p:{} n:{} l:{} e:{} d:{} {}",
-        hex(m.cache_rel.as_bytes()),
+        "cache {}:{} n:{} l:{} e:{} d:{} {}",
+        // `p:` = locate_symbols (symbol file, real parser model); `q:` = locate_file (opaque download)
+        if c.file == "sym" { "p" } else { "q" },
+        hex(cache_rel.as_bytes()),
         initial_node(c, m),
         if c.pre == "local" { hex(&pre_bytes("valid", m)) } else { "none".into() },
         evs.join(","),
@@ -1305,12 +1640,14 @@ fn build_model_request(c: &Case, m: &Mod, prep: &Prepared) -> String {
     )
 }
 
-/// bodies with a line the toy parser of the model has no counterpart for (the real parser's
-/// over-long-line recovery, C09's subject): such cases are checked by the oracle only
+/// Bodies with a line of 80–160 KiB: what the real parser does with such a line depends on where it
+/// sits in its window, i.e. on the chunks the client happens to see (outside C10's domain of chunk
+/// independence) — the model is fed the server's pieces, so such cases are checked by the oracle only.
+/// Shorter lines, and lines beyond the 160 KiB window (dropped by recovery under every chunking), are compared.
 fn outside_model(c: &Case) -> bool {
     c.resps.iter().any(|r| {
         r.body.split('+').any(|p| {
-            (p.starts_with('L') || p.starts_with('M')) && p[1..].parse::<usize>().map(|k| k > 70000).unwrap_or(false)
+            (p.starts_with('L') || p.starts_with('M')) && p[1..].parse::<usize>().map(|k| k > 80000 && k < 165000).unwrap_or(false)
         })
     })
 }
@@ -1337,6 +1674,8 @@ fn resp_gen(rng: &mut Rng, kind: &str, big: bool) -> RespSpec {
     }
     if rng.chance(1, 5) {
         body.push_str("+o");
+    } else if rng.chance(1, 6) {
+        body.push_str("+k");
     }
     let framing = *rng.pick(&[Framing::Len, Framing::Chunked, Framing::Close]);
     let split = match rng.below(4) {
@@ -1367,7 +1706,7 @@ impl Engine for Cache {
         "cache"
     }
     fn rule(&self) -> String {
-        "case = module x pre-existing cache state (none, valid with/without URL note, corrupt, unterminated, directory, socket, dangling symlink, file in a local symbol path) x directory fault (tmp missing, cache root or sub-directory is a file; chmod modes skipped as root) x per-server scripted responses (200/203 with Content-Length / chunked / close-delimited bodies split whole, by line or at random points, with and without pacing; 403/404/410/500/503; body cut after k bytes, k arbitrary or on a line boundary; body unparseable at line j; unterminated last line; empty body; body with its own INFO URL line; body ending in an open FUNC) x drop point (none, every poll boundary in turn) + two racing calls for the same module. The real HttpSymbolSupplier::locate_symbols runs against a loopback server; cache/tmp trees, result class, SymbolFile.url, request log and a second network-less lookup are compared with the Lean model; the oracle checks every cache file = served body ++ INFO URL line and parses, nothing partial is visible while in flight, failures/drops leave nothing, cached lookup = original table and URL. non-trivial = at least one HTTP request reached the server; distinct = distinct case line".into()
+        "case = module x pre-existing cache state (none, valid with/without URL note, corrupt, unterminated, directory, socket, dangling symlink, file in a local symbol path) x directory fault (tmp missing, cache root or sub-directory is a file; chmod modes skipped as root) x per-server scripted responses (200/203 with Content-Length / chunked / close-delimited bodies split whole, by line or at random points, with and without pacing; 403/404/410/500/503; body cut after k bytes, k arbitrary or on a line boundary; body unparseable at line j; unterminated last line; empty body; body with its own INFO URL line; body ending in an open FUNC or STACK CFI INIT item; lines of 40 000 and 170 000 bytes) x drop point (none, every poll boundary in turn) + two racing calls for the same module + the opaque download path (locate_file for binaries / pdbs: 1-2 servers, name taken by a directory / special file / dangling symlink, tmp missing) + a disk filling up after j pieces of the body (the temp file's descriptor is replaced by /dev/full: tee write / URL note write / fetch_lookup write fails). The real HttpSymbolSupplier::locate_symbols / locate_file runs against a loopback server; cache/tmp trees, result class, the WHOLE symbol table (fnv64 of its canonical dump) and SymbolFile.url of the download and of a second network-less lookup, and the request log are compared with the Lean model (the C09/C10 parser model inside the loop of parse_async; the fetch_lookup state machine); the oracle checks every cache file = served body ++ INFO URL line (opaque path: = served body) and parses, nothing partial is visible while in flight, failures/drops/write faults leave nothing, cached lookup = original table and URL. non-trivial = at least one HTTP request reached the server; distinct = distinct case line".into()
     }
     fn exhaustive_part(&self) -> Option<String> {
         Some("for `drop:all` cases: every poll boundary of the locate_symbols future (the future is re-run and dropped after k polls for each k below the poll count of the completed run)".into())
@@ -1376,7 +1715,7 @@ impl Engine for Cache {
     fn generate(&self, tier: Tier, rng: &mut Rng, emit: &mut dyn FnMut(String)) {
         let quick = tier == Tier::Quick;
         let mk = |m: u64, pre: &str, fs: &str, resps: Vec<RespSpec>, drop: &str, race: bool| {
-            show_case(&Case { m: m as usize, pre: pre.into(), fs: fs.into(), resps, drop: drop.into(), race, file: "sym".into() })
+            show_case(&Case { m: m as usize, pre: pre.into(), fs: fs.into(), resps, drop: drop.into(), race, file: "sym".into(), wf: None, wft: false })
         };
         // 1. single server, every response kind, run to completion and dropped at every poll boundary
         let kinds = ["ok", "ok", "status", "corrupt", "unterminated", "empty", "cut", "cut"];
@@ -1479,8 +1818,40 @@ impl Engine for Cache {
                 drop: if rng.chance(1, 2) { "all".into() } else { "-".into() },
                 race: false,
                 file: if rng.chance(2, 3) { "bin".into() } else { "pdb".into() },
+                wf: None,
+                wft: false,
             };
             emit(show_case(&c));
+        }
+        // 6d. a disk that fills up in the middle of the download: after j pieces every write to the temp file fails
+        //     (symbol path: the tee gives up on caching / the URL note cannot be written; opaque path: the fetch fails)
+        for round in 0..(if quick { 90 } else { 900 }) {
+            let file = *rng.pick(&["sym", "sym", "sym", "bin", "pdb"]);
+            let nserv = if file == "sym" { 1 } else { rng.range(1, 2) };
+            let mut resps = vec![];
+            for i in 0..nserv {
+                let kind = if i == 0 { *rng.pick(&["ok", "ok", "ok", "ok", "corrupt", "unterminated"]) } else { *rng.pick(&["ok", "status"]) };
+                let mut r = resp_gen(rng, kind, round % 15 == 14);
+                if i == 0 {
+                    r.split = if rng.chance(1, 2) { "l".into() } else { format!("s{}", rng.below(100000)) };
+                    r.pace_us = 0;
+                }
+                resps.push(r);
+            }
+            let m = if file == "sym" { rng.below(3) } else { rng.below(2) };
+            let Some(b) = body_bytes(&resps[0].body, &MODULES[m as usize]) else { continue };
+            let np = pieces(&b, None, &resps[0].split).len();
+            // with Content-Length framing the client needs no end-of-response signal: hold before the last piece at the latest
+            let max_j = if resps[0].framing == Framing::Len { np.saturating_sub(1) } else { np };
+            let j = match rng.below(4) {
+                0 => 0,
+                1 => max_j,
+                _ => rng.below(max_j as u64 + 1) as usize,
+            };
+            let pre = *rng.pick(&["-", "-", "-", "dir", "special", "dangling"]);
+            // transient: only the writes of piece j fail, later ones would succeed again
+            let wft = resps[0].split == "l" && j < np && rng.chance(1, 2);
+            emit(show_case(&Case { m: m as usize, pre: pre.into(), fs: "-".into(), resps, drop: "-".into(), race: false, file: file.into(), wf: Some(j), wft }));
         }
         // 7. bodies larger than the parser's initial 10 KiB window
         for _ in 0..(if quick { 6 } else { 120 }) {
@@ -1495,8 +1866,7 @@ impl Engine for Cache {
 
     fn model_request(&self, case: &str) -> Option<String> {
         let c = parse_case(case)?;
-        if skipped_for_root(&c) || outside_model(&c) || c.file != "sym" {
-            // (`file:bin|pdb`: the opaque download path is not modelled — oracle only)
+        if skipped_for_root(&c) || outside_model(&c) {
             return None;
         }
         let m = &MODULES[c.m];
@@ -1582,6 +1952,24 @@ impl Cache {
         let full = run_once(&c, m, &prep, None);
         oracle(&c, m, &prep, &full, "completed run", &mut res.oracle);
         res.nontrivial = !full.raw_log.is_empty();
+        if c.wf.is_some() {
+            match full.injected {
+                None => res.tags.push("fault:not-injected(no temp file)".into()),
+                Some(n) => {
+                    let body_len = effective_body(&c.resps[0], &prep.bodies[0]).map(|b| b.len()).unwrap_or(prep.bodies[0].len());
+                    let after = if n < body_len { "a-body-write-fails" } else { "only-the-end-is-left" };
+                    res.tags.push(format!("fault:{}:{after}{}", c.file, if c.wft { ":transient" } else { "" }));
+                    // a symbol download whose temp file can no longer be written must not produce an entry
+                    // (the tee gives up on caching, or the URL note cannot be written)
+                    if c.file == "sym" && full.node != initial_node_desc(&c, m) {
+                        res.oracle.push((
+                            "write-failure-left-cache-entry".into(),
+                            format!("writes to the temp file failed from byte {n} on, yet the cache path holds {} (initially {})", full.node, initial_node_desc(&c, m)),
+                        ));
+                    }
+                }
+            }
+        }
         res.tags.push(format!("result:{}", full.results.join(";").split(':').next().unwrap_or("")));
         res.tags.push(format!("cached:{}", full.node.split(':').next().unwrap_or("")));
         let mut drops = "-".to_string();
@@ -1682,6 +2070,11 @@ impl Cache {
         if best.drop == "all" {
             let mut c = best.clone();
             c.drop = "-".into();
+            try_(&c, &mut best);
+        }
+        if best.wf.is_some() {
+            let mut c = best.clone();
+            c.wf = None;
             try_(&c, &mut best);
         }
         if best.pre != "-" {
